@@ -21,8 +21,19 @@ Record obs := {
 Definition ob ok err ks en := {| o_ok := ok; o_err := err; o_bad := false; o_keys := ks; o_entries := en |}.
 Definition obx ok err ks en := {| o_ok := ok; o_err := err; o_bad := true; o_keys := ks; o_entries := en |}.
 
+(* one element of a forced schedule:
+   Ev l o             label l was issued alone and o was observed once the container was quiescent again;
+   Race cf h w k o    ReleaseX of holder h and the cancellation of the context of queued caller w (both on key k) were
+                      issued back to back WITHOUT waiting in between (the race of the cancel path: w may notice the
+                      cancellation only after it was granted); o is what was observed after both.  cf is the order of
+                      the two critical sections as resolved by the harness from w's return value (true: w's cancel
+                      section first - it returned the context error; false: the release first). *)
+Inductive ev :=
+| Ev (l : lab) (o : obs)
+| Race (cancel_first : bool) (h w k : nat) (o : obs).
+
 Inductive case :=
-| Sched (size : Z) (nkeys : nat) (trace : list (lab * obs))
+| Sched (size : Z) (nkeys : nat) (trace : list ev)
 | Stress (size : Z) (maxr maxw : Z) (mixed : bool) (entries : Z) (bad : bool).
 
 (* ---------------- equality tests ---------------- *)
@@ -58,12 +69,29 @@ Definition mobs (nk : nat) (S : kst) (g c : list nat) : obs :=
   let ks := map (fun j => kobs (S j)) (seq 0 nk) in
   {| o_ok := g; o_err := c; o_bad := false; o_keys := ks; o_entries := countb (map snd ks) |}.
 
-Fixpoint acc (size : Z) (nk : nat) (S : kst) (tr : list (lab * obs)) : bool :=
+Definition kstep2 (size : Z) (S : kst) (l1 l2 : lab) : option (kst * list nat * list nat) :=
+  match kstep size S l1 with
+  | Some (S1, g1, c1) =>
+      match kstep size S1 l2 with
+      | Some (S2, g2, c2) => Some (S2, g1 ++ g2, c1 ++ c2)
+      | None => None
+      end
+  | None => None
+  end.
+Definition is_some {A} (o : option A) : bool := match o with Some _ => true | None => false end.
+
+Fixpoint acc (size : Z) (nk : nat) (S : kst) (tr : list ev) : bool :=
   match tr with
   | [] => true
-  | (l, o) :: tr' =>
+  | Ev l o :: tr' =>
       (lab_key l <? nk)%nat &&
       match kstep size S l with
+      | None => false
+      | Some (S', g, c) => obs_eqb o (mobs nk S' g c) && acc size nk S' tr'
+      end
+  | Race cf h w k o :: tr' =>
+      (k <? nk)%nat && is_some (lookup h (held (S k))) && is_some (lookup w (qof (S k))) &&
+      match (if cf then kstep2 size S (LCancel w k) (LRel h k) else kstep2 size S (LRel h k) (LCancel w k)) with
       | None => false
       | Some (S', g, c) => obs_eqb o (mobs nk S' g c) && acc size nk S' tr'
       end
@@ -126,6 +154,25 @@ Definition mon_step (size : Z) (m : mst) (l : lab) (o : obs) : option mst :=
       end
   end.
 
+(* a release racing with the cancellation of a queued caller w: h holds no longer; w returns in this step - with the
+   context error (then it holds nothing and waits no longer) or admitted (then it holds until its own release); nobody
+   else leaves with an error; the callers admitted are the first in arrival order among those who remain *)
+Definition memb (t : nat) (l : list nat) : bool := existsb (Nat.eqb t) l.
+Definition mon_race (m : mst) (h w k : nat) (o : obs) : option mst :=
+  let '(H, W) := m k in
+  if o_bad o then None else
+  match lookup h H, lookup w W with
+  | Some _, Some _ =>
+      let cancelled := nl_eqb (o_err o) [w] in
+      if cancelled || is_nil (o_err o) then
+        let W1 := if cancelled then remove_t w W else W in
+        if prefix_ids (o_ok o) W1 && (cancelled || memb w (o_ok o))
+        then Some (kupd m k (remove_first h H ++ firstn (length (o_ok o)) W1, skipn (length (o_ok o)) W1))
+        else None
+      else None
+  | _, _ => None
+  end.
+
 Definition present (hw : list (nat * Z) * list (nat * Z)) : bool := negb (is_nil (fst hw) && is_nil (snd hw)).
 
 (* residue: the container has an entry for a key exactly while somebody holds it or waits for it *)
@@ -136,14 +183,20 @@ Definition hook_ok (nk : nat) (m : mst) (o : obs) : bool :=
 Definition state_ok (size : Z) (hw : list (nat * Z) * list (nat * Z)) : bool :=
   excl_ok size (fst hw) && head_ok size (fst hw) (snd hw).
 
-Fixpoint mon (size : Z) (nk : nat) (m : mst) (tr : list (lab * obs)) : bool :=
+Fixpoint mon (size : Z) (nk : nat) (m : mst) (tr : list ev) : bool :=
   match tr with
   | [] => true
-  | (l, o) :: tr' =>
+  | Ev l o :: tr' =>
       (lab_key l <? nk)%nat &&
       match mon_step size m l o with
       | None => false
       | Some m' => state_ok size (m' (lab_key l)) && hook_ok nk m' o && mon size nk m' tr'
+      end
+  | Race _ h w k o :: tr' =>
+      (k <? nk)%nat &&
+      match mon_race m h w k o with
+      | None => false
+      | Some m' => state_ok size (m' k) && hook_ok nk m' o && mon size nk m' tr'
       end
   end.
 
@@ -161,3 +214,299 @@ Definition case_holds (c : case) : bool :=
   | Sched size nk tr => (1 <=? size) && mon size nk minit tr
   | Stress size maxr maxw mixed entries bad => stress_ok size maxr maxw mixed entries bad
   end.
+
+(* ---------------- soundness: what the model produces satisfies the monitor ---------------- *)
+Definition Rel_ms (m : mst) (S : kst) : Prop := forall k, m k = (held (S k), qof (S k)).
+
+Lemma nl_eqb_refl l : nl_eqb l l = true.
+Proof. apply list_eqb_refl. apply Nat.eqb_refl. Qed.
+
+Lemma firstn_ids {A B} (f : A -> B) (gw w : list A) : firstn (length (map f gw)) (gw ++ w) = gw.
+Proof. rewrite map_length. rewrite firstn_app, Nat.sub_diag, firstn_all. cbn. apply app_nil_r. Qed.
+Lemma skipn_ids {A B} (f : A -> B) (gw w : list A) : skipn (length (map f gw)) (gw ++ w) = w.
+Proof. rewrite map_length. rewrite skipn_app, Nat.sub_diag, skipn_all. reflexivity. Qed.
+Lemma prefix_ids_app gw w : prefix_ids (map fst gw) (gw ++ w) = true.
+Proof. unfold prefix_ids. rewrite firstn_ids. apply nl_eqb_refl. Qed.
+
+Lemma Rel_ms_upd m S k s' : Rel_ms m S -> Rel_ms (kupd m k (held s', qof s')) (kupd S k s').
+Proof. intros H j. unfold kupd. destruct (Nat.eqb j k); [reflexivity|apply H]. Qed.
+
+Ltac fin := match goal with
+  | Hh : held ?s' = _ |- Rel_ms (kupd _ _ ?X) (kupd _ _ ?s') =>
+      replace X with (held s', qof s') by (rewrite Hh; try match goal with Hq : qof s' = _ |- _ => rewrite Hq end; reflexivity);
+      now apply Rel_ms_upd
+  end.
+
+Lemma mon_step_model size m S l S' g c nk : 1 <= size ->
+  Rel_ms m S -> KInv size S -> kstep size S l = Some (S', g, c) ->
+  exists m', mon_step size m l (mobs nk S' g c) = Some m' /\ Rel_ms m' S'.
+Proof.
+  intros Hs Hrel Hinv Hk. unfold kstep in Hk.
+  destruct (stepo size (S (lab_key l)) (lab_sem size l)) as [[[s' g0] c0]|] eqn:E; [|discriminate].
+  inversion Hk; subst; clear Hk.
+  pose proof (Hinv (lab_key l)) as Hi.
+  unfold mon_step. rewrite (Hrel (lab_key l)). cbn [mobs o_bad o_ok o_err].
+  destruct l as [t k w|t k|t k]; cbn [lab_key lab_sem] in *.
+  - destruct (stepo_acq size _ _ _ _ _ _ Hi E) as (-> & [(-> & Hq & _ & Hh & Hq')|(-> & _ & Hh & Hq')]); cbn [is_nil negb].
+    + unfold nl_eqb at 1. cbn [list_eqb]. rewrite Nat.eqb_refl. cbn [andb]. rewrite Hq. cbn [is_nil].
+      eexists; split; [reflexivity|]. fin.
+    + unfold nl_eqb at 1. cbn [list_eqb is_nil].
+      eexists; split; [reflexivity|]. fin.
+  - destruct (stepo_cancel size _ _ _ _ _ Hi E) as [(n & Hl & -> & gw & -> & Hr & Hh)|(Hl & (n & Hl2) & -> & -> & ->)].
+    + rewrite Hl. unfold nl_eqb at 1. cbn [list_eqb]. rewrite Nat.eqb_refl. cbn [andb].
+      rewrite Hr, prefix_ids_app, firstn_ids, skipn_ids.
+      eexists; split; [reflexivity|]. fin.
+    + rewrite Hl, Hl2. cbn [is_nil andb]. eexists; split; [reflexivity|].
+      intros j. unfold kupd. destruct (Nat.eqb j k) eqn:Ej; [|apply Hrel]. apply Nat.eqb_eq in Ej. subst. apply Hrel.
+  - destruct (stepo_rel size _ _ _ _ _ Hi E) as (-> & n & gw & Hl & -> & Hq & Hh).
+    rewrite Hl. cbn [is_nil negb]. rewrite Hq, prefix_ids_app, firstn_ids, skipn_ids.
+    eexists; split; [reflexivity|]. fin.
+Qed.
+
+Lemma wf_len_sum size l : wf_w size l -> Z.of_nat (length l) <= sumw l.
+Proof.
+  unfold wf_w, sumw. induction 1 as [|[t n] l Hx Hl IH]; cbn [length fold_right snd]; [cbn; lia|].
+  rewrite Nat2Z.inj_succ. cbn in Hx. lia.
+Qed.
+Lemma wf_in_sum size l p : wf_w size l -> In p l -> snd p + Z.of_nat (length l) - 1 <= sumw l.
+Proof.
+  unfold wf_w. induction 1 as [|[t n] l Hx Hl IH]; intros Hin; [destruct Hin|].
+  change (sumw ((t, n) :: l)) with (n + sumw l). cbn [length]. rewrite Nat2Z.inj_succ. cbn in Hx.
+  destruct Hin as [<-|Hin].
+  - pose proof (wf_len_sum size l Hl). cbn. lia.
+  - specialize (IH Hin). lia.
+Qed.
+
+Lemma inv_sum_le size s : 1 <= size -> Inv size s -> sumw (held s) <= size.
+Proof.
+  intros Hs [Hh He]. destruct (ent s) as [e|]; [destruct He as (-> & ? & _); lia | rewrite He; cbn; lia].
+Qed.
+
+Lemma state_ok_inv size s : 1 <= size -> Inv size s -> state_ok size (held s, qof s) = true.
+Proof.
+  intros Hs Hi. pose proof (inv_sum_le size s Hs Hi) as Hsum. destruct Hi as [Hh He].
+  unfold state_ok. cbn [fst snd]. apply andb_true_intro. split.
+  - unfold excl_ok. apply andb_true_intro. split.
+    + apply Z.leb_le. pose proof (wf_len_sum size _ Hh). lia.
+    + apply forallb_forall. intros p Hp. destruct (snd p =? size) eqn:E; [|reflexivity]. cbn [implb].
+      apply Z.eqb_eq in E. apply Nat.eqb_eq. pose proof (wf_in_sum size _ p Hh Hp).
+      destruct (held s); [destruct Hp|]. cbn [length] in *. lia.
+  - unfold head_ok, qof. destruct (ent s) as [e|]; [|reflexivity].
+    destruct He as (Hc & _ & _ & Hu). destruct (q e) as [|[t n] r]; [reflexivity|]. cbn in Hu. apply Z.ltb_lt. lia.
+Qed.
+
+Lemma present_inv size s : 1 <= size -> Inv size s -> snd (kobs s) = present (held s, qof s).
+Proof.
+  intros Hs [Hh He]. unfold kobs, present, qof. cbn [fst snd]. destruct (ent s) as [e|].
+  - destruct He as (Hc & Hb & _). cbn [snd]. destruct (held s); [cbn in Hc; lia|reflexivity].
+  - rewrite He. reflexivity.
+Qed.
+
+Lemma beqb_list_refl l : list_eqb Bool.eqb l l = true.
+Proof. apply list_eqb_refl. intros []; reflexivity. Qed.
+
+Lemma hook_ok_model size nk m S g c : 1 <= size -> Rel_ms m S -> KInv size S -> hook_ok nk m (mobs nk S g c) = true.
+Proof.
+  intros Hs Hrel Hinv. unfold hook_ok, mobs. cbn [o_keys o_entries].
+  assert (E : map snd (map (fun j => kobs (S j)) (seq 0 nk)) = map (fun j => present (m j)) (seq 0 nk)).
+  { rewrite map_map. apply map_ext. intros j. rewrite (Hrel j). apply (present_inv size); auto. }
+  rewrite E. rewrite beqb_list_refl, Z.eqb_refl. reflexivity.
+Qed.
+
+(* ---- the racing pair ---- *)
+Lemma remove_t_notin t l : ~ In t (map fst l) -> remove_t t l = l.
+Proof.
+  unfold remove_t. induction l as [|[t' n] l IH]; cbn; [reflexivity|]. intros H.
+  destruct (Nat.eqb t' t) eqn:E; cbn.
+  - apply Nat.eqb_eq in E. subst. tauto.
+  - f_equal. apply IH. tauto.
+Qed.
+Lemma remove_t_app' t a b : remove_t t (a ++ b) = remove_t t a ++ remove_t t b.
+Proof. unfold remove_t. apply filter_app. Qed.
+Lemma lookup_some_in_fst t l n : lookup t l = Some n -> In t (map fst l).
+Proof. intros H. apply lookup_some_in in H. apply in_map_iff. exists (t, n). auto. Qed.
+Lemma nodup_app_notin {A} (l1 l2 : list A) x : NoDup (l1 ++ l2) -> In x l2 -> ~ In x l1.
+Proof.
+  induction l1 as [|y l1 IH]; cbn; [tauto|]. intros Hn H2 [->|H1].
+  - inversion Hn as [|? ? Hx _]; subst. apply Hx. apply in_or_app. auto.
+  - inversion Hn; subst. apply IH; auto.
+Qed.
+Lemma nodup_app_r' {A} (a b : list A) : NoDup (a ++ b) -> NoDup b.
+Proof. induction a as [|x a IH]; cbn; auto. intros H. inversion H; auto. Qed.
+Lemma remove_first_app t l g n : lookup t l = Some n -> remove_first t (l ++ g) = remove_first t l ++ g.
+Proof.
+  unfold lookup. induction l as [|[t' n'] l IH]; cbn; [discriminate|].
+  destruct (Nat.eqb t' t); cbn; [reflexivity|]. intros H. now rewrite IH.
+Qed.
+Lemma memb_in t l : In t l -> memb t l = true.
+Proof. intros H. unfold memb. apply existsb_exists. exists t. split; auto. apply Nat.eqb_refl. Qed.
+Lemma nl_eqb_nil_cons t : nl_eqb [] [t] = false.
+Proof. reflexivity. Qed.
+Lemma nl_eqb_single t : nl_eqb [t] [t] = true.
+Proof. unfold nl_eqb. cbn. now rewrite Nat.eqb_refl. Qed.
+
+Lemma Rel_ms_upd2 m S k s1 s2 : Rel_ms m S -> Rel_ms (kupd m k (held s2, qof s2)) (kupd (kupd S k s1) k s2).
+Proof. intros H j. unfold kupd. destruct (Nat.eqb j k); [reflexivity|apply H]. Qed.
+
+Lemma kstep_shape size S l S' g c : kstep size S l = Some (S', g, c) ->
+  exists s', stepo size (S (lab_key l)) (lab_sem size l) = Some (s', g, c) /\ S' = kupd S (lab_key l) s'.
+Proof.
+  unfold kstep. destruct (stepo size (S (lab_key l)) (lab_sem size l)) as [[[s' g0] c0]|]; [|discriminate].
+  intros H. inversion H; subst. eauto.
+Qed.
+
+Lemma mon_race_model size m S (cf : bool) h w k S' g c nk : 1 <= size ->
+  Rel_ms m S -> KInv size S -> KNoDup S ->
+  is_some (lookup h (held (S k))) = true -> is_some (lookup w (qof (S k))) = true ->
+  (if cf then kstep2 size S (LCancel w k) (LRel h k) else kstep2 size S (LRel h k) (LCancel w k)) = Some (S', g, c) ->
+  exists m', mon_race m h w k (mobs nk S' g c) = Some m' /\ Rel_ms m' S'.
+Proof.
+  intros Hs Hrel Hinv Hnd Hh Hw Hk.
+  destruct (lookup h (held (S k))) as [nh|] eqn:Elh; [|discriminate].
+  destruct (lookup w (qof (S k))) as [nw|] eqn:Elw; [|discriminate].
+  pose proof (Hinv k) as Hi.
+  assert (Hndq : NoDup (map fst (qof (S k)))).
+  { specialize (Hnd k). unfold tids in Hnd. rewrite map_app in Hnd. apply (nodup_app_r' _ _ Hnd). }
+  unfold mon_race. rewrite (Hrel k). cbn [mobs o_bad o_ok o_err]. rewrite Elh, Elw.
+  unfold kstep2 in Hk. destruct cf.
+  - (* the cancel section first, then the release *)
+    destruct (kstep size S (LCancel w k)) as [[[S1 g1] c1]|] eqn:E1; [|discriminate].
+    destruct (kstep size S1 (LRel h k)) as [[[S2 g2] c2]|] eqn:E2; [|discriminate].
+    inversion Hk; subst; clear Hk.
+    pose proof (kstep_inv size Hs _ _ _ _ _ Hinv E1) as Hinv1.
+    apply kstep_shape in E1 as (s1 & E1 & ->). apply kstep_shape in E2 as (s2 & E2 & ->).
+    cbn [lab_key lab_sem] in *. rewrite kupd_same in E2.
+    destruct (stepo_cancel size _ _ _ _ _ Hi E1) as [(n & _ & -> & gw1 & -> & Hr1 & Hh1)|(Hl & _)]; [|congruence].
+    assert (Hi1 : Inv size s1) by (specialize (Hinv1 k); now rewrite kupd_same in Hinv1).
+    destruct (stepo_rel size _ _ _ _ _ Hi1 E2) as (-> & n2 & gw2 & _ & -> & Hq2 & Hh2).
+    cbn [app]. rewrite nl_eqb_single. cbn [orb].
+    rewrite Hr1, Hq2. rewrite <- map_app. rewrite app_assoc, prefix_ids_app, firstn_ids, skipn_ids. cbn [andb].
+    eexists; split; [reflexivity|].
+    replace (remove_first h (held (S k)) ++ gw1 ++ gw2, qof s2) with (held s2, qof s2).
+    + now apply Rel_ms_upd2.
+    + rewrite Hh2, Hh1. rewrite (remove_first_app _ _ _ _ Elh). now rewrite app_assoc.
+  - (* the release first, then the cancel section *)
+    destruct (kstep size S (LRel h k)) as [[[S1 g1] c1]|] eqn:E1; [|discriminate].
+    destruct (kstep size S1 (LCancel w k)) as [[[S2 g2] c2]|] eqn:E2; [|discriminate].
+    inversion Hk; subst; clear Hk.
+    pose proof (kstep_inv size Hs _ _ _ _ _ Hinv E1) as Hinv1.
+    apply kstep_shape in E1 as (s1 & E1 & ->). apply kstep_shape in E2 as (s2 & E2 & ->).
+    cbn [lab_key lab_sem] in *. rewrite kupd_same in E2.
+    destruct (stepo_rel size _ _ _ _ _ Hi E1) as (-> & n1 & gw1 & _ & -> & Hq1 & Hh1).
+    assert (Hi1 : Inv size s1) by (specialize (Hinv1 k); now rewrite kupd_same in Hinv1).
+    cbn [app].
+    destruct (stepo_cancel size _ _ _ _ _ Hi1 E2) as [(n & Hl2 & -> & gw2 & -> & Hr2 & Hh2)|(Hl2 & _ & -> & -> & ->)].
+    + (* w was not admitted by the release: it leaves with the error *)
+      rewrite nl_eqb_single. cbn [orb].
+      assert (Hnot : ~ In w (map fst gw1)).
+      { rewrite Hq1, map_app in Hndq. apply (nodup_app_notin _ _ w Hndq). eapply lookup_some_in_fst; eauto. }
+      rewrite Hq1, remove_t_app', (remove_t_notin _ _ Hnot), Hr2. rewrite <- map_app.
+      rewrite app_assoc, prefix_ids_app, firstn_ids, skipn_ids. cbn [andb].
+      eexists; split; [reflexivity|].
+      replace (remove_first h (held (S k)) ++ gw1 ++ gw2, qof s2) with (held s2, qof s2).
+      * now apply Rel_ms_upd2.
+      * rewrite Hh2, Hh1. now rewrite app_assoc.
+    + (* w was admitted by the release: the cancellation comes too late *)
+      rewrite app_nil_r. rewrite nl_eqb_nil_cons. cbn [orb is_nil].
+      rewrite Hq1, prefix_ids_app, firstn_ids, skipn_ids.
+      assert (Hin : In w (map fst gw1)).
+      { apply lookup_some_in_fst in Elw. rewrite Hq1, map_app in Elw. apply in_app_or in Elw as [H|H]; [exact H|].
+        exfalso. apply lookup_none_notin in Hl2. contradiction. }
+      rewrite (memb_in _ _ Hin). cbn [andb].
+      eexists; split; [reflexivity|].
+      replace (remove_first h (held (S k)) ++ gw1, qof s1) with (held s1, qof s1) by (now rewrite Hh1).
+      now apply Rel_ms_upd2.
+Qed.
+
+Lemma kstep2_inv size S l1 l2 S' g c : 1 <= size -> KInv size S -> KNoDup S -> kstep2 size S l1 l2 = Some (S', g, c) ->
+  KInv size S' /\ KNoDup S'.
+Proof.
+  intros Hs Hi Hn H. unfold kstep2 in H.
+  destruct (kstep size S l1) as [[[S1 g1] c1]|] eqn:E1; [|discriminate].
+  destruct (kstep size S1 l2) as [[[S2 g2] c2]|] eqn:E2; [|discriminate].
+  inversion H; subst.
+  pose proof (kstep_inv size Hs _ _ _ _ _ Hi E1) as Hi1. pose proof (kstep_nodup size _ _ _ _ _ Hi Hn E1) as Hn1.
+  split; [eapply kstep_inv; eauto | eapply kstep_nodup; eauto].
+Qed.
+
+Lemma acc_mon size nk : 1 <= size -> forall tr S m,
+  Rel_ms m S -> KInv size S -> KNoDup S -> acc size nk S tr = true -> mon size nk m tr = true.
+Proof.
+  intros Hs. induction tr as [|[l o|cf h w k o] tr IH]; intros S m Hrel Hinv Hnd H; [reflexivity| |].
+  - cbn [acc mon] in *. apply andb_prop in H as [Hk H]. rewrite Hk. cbn [andb].
+    destruct (kstep size S l) as [[[S' g] c]|] eqn:E; [|discriminate].
+    apply andb_prop in H as [Ho H]. apply obs_eqb_eq in Ho. subst o.
+    destruct (mon_step_model size m S l S' g c nk Hs Hrel Hinv E) as (m' & Hm & Hrel').
+    rewrite Hm. pose proof (kstep_inv size Hs _ _ _ _ _ Hinv E) as Hinv'.
+    pose proof (kstep_nodup size _ _ _ _ _ Hinv Hnd E) as Hnd'.
+    rewrite (Hrel' (lab_key l)). rewrite (state_ok_inv size _ Hs (Hinv' _)).
+    rewrite (hook_ok_model size nk m' S' g c Hs Hrel' Hinv'). cbn [andb].
+    apply (IH S' m' Hrel' Hinv' Hnd' H).
+  - cbn [acc mon] in *. apply andb_prop in H as [H H2]. apply andb_prop in H as [H Hw]. apply andb_prop in H as [Hk Hh].
+    rewrite Hk. cbn [andb].
+    destruct (if cf then kstep2 size S (LCancel w k) (LRel h k) else kstep2 size S (LRel h k) (LCancel w k))
+      as [[[S' g] c]|] eqn:E; [|discriminate].
+    apply andb_prop in H2 as [Ho H2]. apply obs_eqb_eq in Ho. subst o.
+    destruct (mon_race_model size m S cf h w k S' g c nk Hs Hrel Hinv Hnd Hh Hw E) as (m' & Hm & Hrel').
+    rewrite Hm.
+    assert (Hboth : KInv size S' /\ KNoDup S').
+    { destruct cf; eapply kstep2_inv; eauto. }
+    destruct Hboth as [Hinv' Hnd'].
+    rewrite (Hrel' k). rewrite (state_ok_inv size _ Hs (Hinv' _)).
+    rewrite (hook_ok_model size nk m' S' g c Hs Hrel' Hinv'). cbn [andb].
+    apply (IH S' m' Hrel' Hinv' Hnd' H2).
+Qed.
+
+Theorem case_sound : forall c, case_accept c = true -> case_holds c = true.
+Proof.
+  intros [size nk tr|size maxr maxw mixed entries bad]; cbn [case_accept case_holds]; [|auto].
+  intros H. apply andb_prop in H as [Hs H]. rewrite Hs. cbn [andb]. apply Z.leb_le in Hs.
+  apply (acc_mon size nk Hs tr (kinit) minit); auto.
+  - intros k. reflexivity.
+  - intros k. apply init_inv.
+  - apply kinit_nodup.
+Qed.
+
+(* ---------------- non-vacuity: the monitor rejects, the model accepts ---------------- *)
+(* what the pinned tree did (defect 1): two readers, one releases, the entry disappears although caller 2 still holds,
+   a writer is then admitted beside it *)
+Example defect1_rejected :
+  case_holds (Sched 3 1 [Ev (LAcq 1 0 false) (ob [1]%nat [] [(1,0,true)]%Z 1);
+                          Ev (LAcq 2 0 false) (ob [2]%nat [] [(2,0,true)]%Z 1);
+                          Ev (LRel 1 0) (ob [] [] [(0,0,false)]%Z 0);
+                          Ev (LAcq 3 0 true) (ob [3]%nat [] [(3,0,true)]%Z 1)]) = false.
+Proof. vm_compute. reflexivity. Qed.
+(* the same history with the residue hook silenced: the exclusion clause alone rejects it at the last step *)
+Example defect1_rejected_by_exclusion :
+  case_holds (Sched 3 1 [Ev (LAcq 1 0 false) (ob [1]%nat [] [(1,0,true)]%Z 1);
+                          Ev (LAcq 2 0 false) (ob [2]%nat [] [(2,0,true)]%Z 1);
+                          Ev (LRel 1 0) (ob [] [] [(1,0,true)]%Z 1)]) = true /\
+  case_holds (Sched 3 1 [Ev (LAcq 1 0 false) (ob [1]%nat [] [(1,0,true)]%Z 1);
+                          Ev (LAcq 2 0 false) (ob [2]%nat [] [(2,0,true)]%Z 1);
+                          Ev (LRel 1 0) (ob [] [] [(1,0,true)]%Z 1);
+                          Ev (LAcq 3 0 true) (ob [3]%nat [] [(4,0,true)]%Z 1)]) = false.
+Proof. split; vm_compute; reflexivity. Qed.
+(* what the repaired tree does on the same calls *)
+Example repaired_accepted :
+  case_accept (Sched 3 1 [Ev (LAcq 1 0 false) (ob [1]%nat [] [(1,0,true)]%Z 1);
+                           Ev (LAcq 2 0 false) (ob [2]%nat [] [(2,0,true)]%Z 1);
+                           Ev (LRel 1 0) (ob [] [] [(1,0,true)]%Z 1);
+                           Ev (LAcq 3 0 true) (ob [] [] [(1,1,true)]%Z 1);
+                           Ev (LRel 2 0) (ob [3]%nat [] [(3,0,true)]%Z 1);
+                           Ev (LRel 3 0) (ob [] [] [(0,0,false)]%Z 0)]) = true.
+Proof. vm_compute. reflexivity. Qed.
+(* the race of the cancel path: both outcomes are admitted; a cancelled waiter that keeps its tokens is rejected *)
+Example race_both_outcomes_accepted :
+  case_accept (Sched 3 1 [Ev (LAcq 1 0 true) (ob [1]%nat [] [(3,0,true)]%Z 1);
+                           Ev (LAcq 2 0 true) (ob [] [] [(3,1,true)]%Z 1);
+                           Race false 1 2 0 (ob [2]%nat [] [(3,0,true)]%Z 1);
+                           Ev (LRel 2 0) (ob [] [] [(0,0,false)]%Z 0)]) = true /\
+  case_accept (Sched 3 1 [Ev (LAcq 1 0 true) (ob [1]%nat [] [(3,0,true)]%Z 1);
+                           Ev (LAcq 2 0 true) (ob [] [] [(3,1,true)]%Z 1);
+                           Race true 1 2 0 (ob [] [2]%nat [(0,0,false)]%Z 0)]) = true.
+Proof. split; vm_compute; reflexivity. Qed.
+Example race_leak_rejected :
+  case_holds (Sched 3 1 [Ev (LAcq 1 0 true) (ob [1]%nat [] [(3,0,true)]%Z 1);
+                          Ev (LAcq 2 0 true) (ob [] [] [(3,1,true)]%Z 1);
+                          Race true 1 2 0 (ob [] [2]%nat [(3,0,true)]%Z 1)]) = false.
+Proof. vm_compute. reflexivity. Qed.
